@@ -272,6 +272,37 @@ def run_trace(pools, trace, keep_recs=False):
     return res
 
 
+def xrun_jobs(jobs, hashseed, nworkers=4):
+    """Run jobs in a FRESH interpreter started with PYTHONHASHSEED=hashseed; returns
+    {key: [(ok, exc, digest) per step]} with key = seed:world:trace digest (or None + error text)."""
+    d = os.path.join(VERIF_ROOT, "replays")
+    os.makedirs(d, exist_ok=True)
+    path = os.path.join(d, f"xrun_{os.getpid()}_{hashseed}.json")
+    with open(path, "w") as f:
+        json.dump({"jobs": [{"seed": j.get("seed"), "trace": j["trace"]} for j in jobs], "workers": nworkers}, f)
+    env = dict(os.environ, PYTHONHASHSEED=str(hashseed))
+    try:
+        p = subprocess.run([sys.executable, "-B", "-m", "qsim", "xrun", path], cwd=VERIF_ROOT, env=env,
+                           capture_output=True, text=True, timeout=RUN_TIMEOUT_S * 4)
+    finally:
+        try:
+            os.remove(path)
+        except OSError:
+            pass
+    for line in p.stdout.splitlines():
+        if line.startswith("XRUN-RESULT "):
+            return json.loads(line[len("XRUN-RESULT "):]), None
+    return None, (p.stdout[-1000:] + p.stderr[-2000:])
+
+
+def job_key(job):
+    return f"{job.get('seed')}:{job['trace']['world']}:{trace_digest(job['trace'])}"
+
+
+def step_sigs(res):
+    return [[st.get("ok"), st.get("exc"), st.get("digest")] for st in res.get("steps", [])]
+
+
 def load_known_findings():
     path = os.path.join(VERIF_ROOT, "known_findings.json")
     try:
